@@ -281,7 +281,30 @@ func (c *Ctx) c02Reverse() {
 	}
 	nab := "" + pBld + "newAssignmentBuilder"
 	build := "(*" + pBld + "assignmentBuilder).build"
-	ctors := c.CallsIn(cf, nab, false)
+	// the builders may sit in CreateFunction itself or in a helper split off from it (found through the constructor calls)
+	ctors := c.CallsTo(nab)
+	top := cf
+	for _, ct := range ctors {
+		if ct.Fn != ctors[0].Fn {
+			r.Check("C02-3", FnKey(cf)+":has-builder", c.Pos(cf.Pos()), false, "assignment builders are created in more than one function: "+FnKey(ct.Fn)+", "+FnKey(ctors[0].Fn))
+			return
+		}
+	}
+	if len(ctors) > 0 && ctors[0].Fn != cf {
+		up := ctors[0].Fn
+		for i := 0; i < 3 && up != cf; i++ {
+			site, ok := c.UniqueCaller(up)
+			if !ok {
+				break
+			}
+			up = site.Fn
+		}
+		if up != cf {
+			r.Check("C02-3", FnKey(cf)+":has-builder", c.Pos(cf.Pos()), false, "the assignment builders are created in "+FnKey(ctors[0].Fn)+", which is not a helper called only from CreateFunction")
+			return
+		}
+		cf = ctors[0].Fn
+	}
 	builds := c.CallsIn(cf, build, false)
 	r.Check("C02-3", FnKey(cf)+":has-builder", c.Pos(cf.Pos()), len(ctors) >= 1 && len(ctors) == len(builds), sprintf("expected one build call per assignment builder, found %d builders / %d builds", len(ctors), len(builds)))
 	if len(ctors) == 0 || len(ctors) != len(builds) {
@@ -289,13 +312,17 @@ func (c *Ctx) c02Reverse() {
 	}
 	rc := c.Reach(cf)
 	// origin of a Var value: the signature element given to createVar
-	elemOf := func(v ssa.Value) string {
-		t := c.O.Of(v)
+	var elemOf func(v ssa.Value) string
+	elemOf = func(v ssa.Value) string {
+		t := c.OfUpTo(v, top)
+		if t.V != nil && t.V != v && !t.IsCallTo("(*"+pBld+"FunctionBuilder).createVar") {
+			return elemOf(t.V) // a field of a parameter struct, read through to the caller's variable
+		}
 		if u, ok := v.(*ssa.UnOp); ok {
 			if al, ok := u.X.(*ssa.Alloc); ok && al.Referrers() != nil {
 				for _, rf := range *al.Referrers() {
 					if st, ok := rf.(*ssa.Store); ok && st.Addr == al {
-						t = c.O.Of(st.Val)
+						t = c.OfUpTo(st.Val, top)
 					}
 				}
 			}
@@ -343,7 +370,7 @@ func (c *Ctx) c02Reverse() {
 					if len(both) == 0 {
 						continue
 					}
-					ve, oe := elemOf(v.V), c.O.Of(o.V).String()
+					ve, oe := elemOf(v.V), c.OfUpTo(o.V, top).String()
 					if ve != oe {
 						ok = false
 						why = "variable is createVar(" + ve + ") while the operand given to build is " + oe + " under " + both.Describe(c.O)
